@@ -384,6 +384,14 @@ class Module:
                     a.name if a.asname else a.name.split('.')[0])
         elif isinstance(st, ast.ImportFrom):
             base = st.module or ''
+            if st.level:
+                pkg = self.name.split('.')
+                # a module's package is its name minus the last component
+                # (package __init__ modules keep their own name)
+                if not self.path.endswith('__init__.py'):
+                    pkg = pkg[:-1]
+                pkg = pkg[:len(pkg) - (st.level - 1)]
+                base = '.'.join(pkg + ([st.module] if st.module else []))
             for a in st.names:
                 self.imports[a.asname or a.name] = (base + '.' + a.name
                                                     if base else a.name)
